@@ -72,13 +72,14 @@ Fixpoint spec_run (s : spec_state) (ops : list pq_op) : list pq_obs :=
 
 (* ---- the reference for the sorted back end's container: a plain list ------ *)
 (* BarrelList operations used by the queue (and exercised directly by the
-   harness): insert at 0 <= i <= len, pop at 0 <= i < len, item read, len,
+   harness): insert at 0 <= i <= len, pop at 0 <= i < len, item read (also b[-k]), len,
    iteration.  Indices are natural numbers here; out-of-range reads/pops raise
    IndexError as for a Python list.                                           *)
 Inductive bl_op :=
 | BInsert (i : nat) (x : nat)
 | BPop (i : nat)
 | BGet (i : nat)
+| BGetNeg (k : nat)                  (* b[-k] *)
 | BLen
 | BList.                            (* list(b) *)
 
@@ -101,6 +102,11 @@ Definition lspec_step (l : list nat) (op : bl_op) : list nat * bl_obs :=
               | Some v => (l, BVal v)
               | None => (l, BErr IndexError)
               end
+  | BGetNeg k => match (if Nat.eqb k 0 then nth_error l 0
+                        else if (k <=? length l)%nat then nth_error l (length l - k)%nat else None) with
+                 | Some v => (l, BVal v)
+                 | None => (l, BErr IndexError)      (* further back than the first item *)
+                 end
   | BLen => (l, BLenIs (length l))
   | BList => (l, BItems l)
   end.
